@@ -97,10 +97,6 @@ Proof. vm_compute. repeat split; reflexivity. Qed.
    ---- statements that are NOT proved here; they are decided only by the
    differential check (harness/c14.py evaluates them on the real code and the
    model on every generated case).  Kept as Definitions so the claim is visible. ---- *)
-Definition subst_eliminates_statement : Prop :=
-  forall n m v tv r, lookup tv m = Some r -> (forall k x, In (k, x) m -> closed x = true) ->
-  occurs tv (subst_f n m v) = false.
-
 Definition subst_commutes_unite_statement : Prop :=
   forall n m a b, flat a = true -> flat b = true ->
   equiv_onb (E_f n) (flatten a ++ flatten b ++ flatten (subst_f n m a) ++ flatten (subst_f n m b)) = true ->
